@@ -398,7 +398,11 @@ def whole_file_compare(ctx: Ctx, rule: str) -> None:
         fref = f"{OPS}.{name}"
         fn = ctx.repo.func(fref)
         ctx.touch(fref)
-        for c in sorted((c for c in calls_in(fn.node) if call_name(c) == "hash_file"), key=lambda c: c.lineno):
+        # constants named as locals are substituted: the finding is keyed by the value, not by the spelling
+        from ..canon import inline_locals
+
+        fnode = inline_locals(fn.node)
+        for c in sorted((c for c in calls_in(fnode) if call_name(c) == "hash_file"), key=lambda c: c.lineno):
             n += 1
             # avocado's crypto.hash_file(filename, size=None, algorithm) / aexpect ops.hash_file(session, filename, size='', method)
             remote = ast.unparse(c.func.value) == "ops"
